@@ -90,7 +90,7 @@ class Obj:
     """One real playing-phase object plus its mode."""
 
     def __init__(self, o: int, mode: str, me: int, deal, trump: int, decl: int,
-                 redeal: bool = False, pbn: bool = False):
+                 redeal: bool = False, pbn: bool = False, lists: bool = False):
         (Bid, Card, Contract, Hands, Obs, Pair, Player, PP, PPH, Suit,
          Vul) = _imports()
         self.o, self.mode, self.me = o, mode, me
@@ -119,6 +119,12 @@ class Obj:
             h.north, h.east, h.south, h.west = [{card(c) for c in deal[k]} for k in range(4)]
             self.caller = h
             self.obj = PPH(contract, h)
+        elif mode == 'hands' and lists:
+            # the four hands handed over as lists of cards (what a shuffle-and-slice
+            # dealer has at hand) instead of sets
+            self.caller = Hands(north_hand=[card(c) for c in deal[0]], east_hand=[card(c) for c in deal[1]],
+                                south_hand=[card(c) for c in deal[2]], west_hand=[card(c) for c in deal[3]])
+            self.obj = PPH(contract, self.caller)
         elif mode == 'hands':
             self.caller = make_hands(deal)
             self.obj = PPH(contract, self.caller)
@@ -305,7 +311,8 @@ def _board_trace(job) -> List[Dict[str, Any]]:
     evs: List[Dict[str, Any]] = []
     man = Obj(0, 'hands', NOSEAT, deal, trump, decl,
               redeal=(sum(map(ord, tid)) + trump + decl) % 4 == 0,
-              pbn=(sum(map(ord, tid)) + trump + decl) % 4 == 2 and all(len(h) == 13 for h in deal))
+              pbn=(sum(map(ord, tid)) + trump + decl) % 4 == 2 and all(len(h) == 13 for h in deal),
+              lists=(sum(map(ord, tid)) + trump + decl) % 8 == 3)
     evs.append(ev_new(tid, man, deal, trump, decl))
     plain = Obj(1, 'plain', NOSEAT, deal, trump, decl)
     evs.append(ev_new(tid, plain, deal, trump, decl))
